@@ -134,7 +134,7 @@ def check(tier):
     rep = Report(PROP, tier)
     depth = 5 if tier == "thorough" else 4
     first = True
-    for gi, grp in enumerate(GROUPS if tier == "thorough" else GROUPS[:2]):
+    for gi, grp in enumerate(GROUPS):
         r = rep if first else Report(PROP, tier)
         cfg = e1.Config(PROP, alphabet(CORE, grp), depth, [], [oracles.c04_floor], split=2)
         e1.run(cfg, r)
